@@ -8,8 +8,109 @@ F = os.path.join(VERIF, "harness", "C19", "c19.c")
 SRCS = ["math.c", "a.c"]
 
 
+NATIVE_T = """#include <stdio.h>
+#include "a/a.h"
+#include "a/math.h"
+/* replay of a counterexample to a loop-invariant obligation of C19: exits 1 when the real function disagrees with the expected value */
+int main(void)
+{
+    unsigned long long got = (unsigned long long)%(call)s;
+    unsigned long long want = %(want)dull;
+    printf("%(call)s = %%llu, expected %%llu\\n", got, want);
+    return got != want;
+}
+"""
+
+
+def native_try(cfg, res, fn, args, want, tag):
+    """Run the real function natively on concrete arguments; returns (mismatch?, replay path)."""
+    call = "%s(%s)" % (fn, ", ".join("%dull" % a for a in args))
+    text = NATIVE_T % dict(call=call, want=want)
+    path = res.save_replay("loop_%s_%s.c" % (fn, tag), text)
+    exe = native_prog(cfg, path, repo_sources(SRCS), name="loopreplay_%s_%s" % (fn, tag), san=True)
+    rc, so, se, _ = run([exe], timeout=60, env=dict(os.environ, ASAN_OPTIONS="detect_leaks=0"))
+    return rc != 0, path, (so or "").strip()
+
+
+def loop_proofs(res, cfg):
+    """Full-width, unbounded-iteration proofs of isqrt and gcd by loop invariant on the real IR (harness/llsym/loopinv.py)."""
+    import math, time
+    sys.path.insert(0, os.path.join(VERIF, "harness", "llsym"))
+    sys.path.insert(0, os.path.join(VERIF, "lib", "llsym"))
+    import build, loopinv
+    mods = build.load_modules(cfg, SRCS)
+    total = dict(paths=0, queries=0, solver_s=0.0)
+    for fn, kind, w in (("a_u32_sqrt", "isqrt", 32), ("a_u64_sqrt", "isqrt", 64), ("a_u32_gcd", "gcd", 32), ("a_u64_gcd", "gcd", 64)):
+        t0 = time.time()
+        try:
+            obl, summ, ex, hdr = loopinv.run(mods, fn, kind, w)
+        except Exception as e:
+            res.error("loop-invariant proof of %s: %s" % (fn, e))
+            continue
+        total["paths"] += summ["paths"]
+        total["queries"] += ex.stats["queries"]
+        total["solver_s"] += ex.stats["solver_s"]
+        if summ["status"] != "exhausted":
+            res.error("loop-invariant proof of %s: exploration %s" % (fn, summ["status"]))
+        cands = []          # concrete argument tuples worth trying natively
+        groups = {}
+        for name, verdict, dt, model in obl.items:
+            g = groups.setdefault(name.split("/start=")[0], {"n": 0, "bad": [], "dt": 0.0})
+            g["n"] += 1
+            g["dt"] = max(g["dt"], dt)
+            if verdict != "unsat":
+                g["bad"].append((name, verdict, model))
+                if model:
+                    gv = lambda k: next((v for n, v in model.items() if n.split("!")[0] == k and v is not None), None)
+                    if kind == "isqrt" and gv("x") is not None:
+                        cands.append((gv("x"),))
+                    if kind == "gcd":
+                        for pa, pb in (("a", "b"), ("ha", "hb")):
+                            if gv(pa) is not None and gv(pb) is not None:
+                                cands.append((gv(pa), gv(pb)))
+        for f in ex.findings:
+            if f.model:
+                xs = [v for n, v in f.model.items() if n.split("!")[0] == "x"]
+                if kind == "isqrt" and xs:
+                    cands.append((int(xs[0]),))
+            if f.kind not in ("PROP",):
+                groups.setdefault("%s/executor-finding/%s" % (fn, f.label), {"n": 1, "bad": [(f.label, f.kind, None)], "dt": 0.0})
+        confirmed = None
+        for k, args in enumerate(dict.fromkeys(cands)):
+            want = math.isqrt(args[0]) if kind == "isqrt" else math.gcd(*args)
+            try:
+                bad, path, out = native_try(cfg, res, fn, args, want, "%d" % k)
+            except MachineryError as e:
+                res.error("native replay for %s does not build: %s" % (fn, str(e)[-300:]))
+                continue
+            if bad:
+                confirmed = (args, path, out)
+                break
+        for gname, g in sorted(groups.items()):
+            ok = not g["bad"]
+            res.ob("loop-invariant/" + gname, "holds" if ok else ("violated" if confirmed else "inconclusive"), engine="llsym+z3-int", obligations=g["n"], max_query_s=round(g["dt"], 3))
+            if not ok and not confirmed:
+                res.error("loop-invariant obligation %s not proved (%s) and no concrete counterexample reproduces natively: %s" % (gname, g["bad"][0][1], g["bad"][0][2]))
+        if confirmed:
+            args, path, out = confirmed
+            res.violation("loop-invariant/%s" % fn, "%s%s: %s (counterexample to the %s obligation, reproduced natively)" % (fn, args, out, "loop-invariant"), replay=path)
+        res.extra.setdefault("loop_invariant_proofs", {})[fn] = dict(header=hdr, paths=summ["paths"], obligations=len(obl.items), wall_s=round(time.time() - t0, 1),
+                                                                    width=w, bound="none (inductive step over one symbolic iteration of the real loop body)")
+    res.queries += total["queries"]
+    res.solver_s += total["solver_s"]
+    res.paths += total["paths"]
+    res.functions.update(["a_u32_sqrt / a_u64_sqrt / a_u32_gcd / a_u64_gcd: loop-invariant proof on the clang IR (llsym), obligations over mathematical integers (z3)"])
+
+
 def main():
     cfg = gen_config()
+    if os.environ.get("VERIF_REPLAY", "").endswith(".c"):
+        exe = native_prog(cfg, os.environ["VERIF_REPLAY"], repo_sources(SRCS), name="loopreplay_cli", san=True)
+        rc, so, se, _ = run([exe], timeout=60, env=dict(os.environ, ASAN_OPTIONS="detect_leaks=0"))
+        sys.stdout.write(so or "")
+        if rc != 0:
+            print("VIOLATION property=%s replay=%s" % (PID, os.environ["VERIF_REPLAY"]))
+        return 1 if rc != 0 else 0
     if os.environ.get("VERIF_REPLAY"):
         return replay_file(cfg, os.environ["VERIF_REPLAY"])
     res = Result(PID)
@@ -31,14 +132,16 @@ def main():
     gb, lb, lpb = (8, 6, 12) if T == "quick" else (11, 8, 16)
     for w in ("32", "64"):
         D = ("GCD_BITS=%d" % gb, "LCM_BITS=%d" % lb, "LCMP_BITS=%d" % lpb)
-        hs.append(H("gcd%s/divides" % w, F, "h_gcd%s_divides" % w, SRCS, defs=D, unwind=20))
-        hs.append(H("gcd%s/greatest" % w, F, "h_gcd%s_greatest" % w, SRCS, defs=D, unwind=20))
+        # thorough: the 2^11 operand bound sits at the edge of what SAT decides in 1200 s (under load it does not); since the
+        # loop-invariant proof above covers the full width these harnesses are the bug-finding half and may be dropped
+        hs.append(H("gcd%s/divides" % w, F, "h_gcd%s_divides" % w, SRCS, defs=D, unwind=20, droppable=(T == "thorough")))
+        hs.append(H("gcd%s/greatest" % w, F, "h_gcd%s_greatest" % w, SRCS, defs=D, unwind=20, droppable=(T == "thorough")))
         hs.append(H("lcm%s/product" % w, F, "h_lcm%s" % w, SRCS, defs=D, unwind=20))
         hs.append(H("lcm%s/product-vs-gcd-contract" % w, F, "h_lcm%s_contract" % w, SRCS, defs=D, unwind=2,
                     instrument=("--replace-calls", "a_u%s_gcd:stub_gcd%s" % (w, w)),
                     note="gcd replaced by any value meeting the gcd post-condition"))
     for sh in (16, 32, 48):
-        D2 = ("GCD_BITS=%d" % (gb - 2), "GCD_SHIFT=%d" % sh)
+        D2 = ("GCD_BITS=%d" % (gb - 2), "GCD_SHIFT=%d" % sh, "GCD_BITS32=%d" % min(gb - 2, 32 - sh // 2))    # shifted operands must still fit the word
         hs.append(H("gcd64/shifted-by-%d" % sh, F, "h_gcd64_shifted", SRCS, defs=D2, unwind=20))
         hs.append(H("gcd32/shifted-by-%d" % (sh // 2), F, "h_gcd32_shifted", SRCS, defs=D2, unwind=20))
     hs.append(H("gcd-edges", F, "h_gcd_edges", SRCS, unwind=4))
@@ -50,9 +153,16 @@ def main():
     res.bounds = {"isqrt": "all x < 2^%d (both widths) + %d-wide windows around every 2^k up to the type maximum" % (B, 2 * W + 1),
                   "gcd/lcm": "gcd operands < 2^%d, lcm operands < 2^%d, lcm-vs-gcd-contract products < 2^%d; plus full-width identities with 0, 1, equal operands, and operands shifted to bit positions 16/32/48 (8/16/24 for 32 bit)" % (gb, lb, lpb),
                   "rev/endian": "full width", "unwind": "10 Newton steps / 20 Euclid steps, unwinding assertions on"}
-    res.outside = ["isqrt for x >= 2^%d away from the power-of-two windows" % B, "gcd/lcm operands >= 2^%d in general position" % gb]
+    res.bounds["loop-invariant proofs"] = ("isqrt (both widths) and gcd (both widths): every input of the full width, any number of iterations - base case (every power-of-two start value, bit-vector domain), "
+                                           "one symbolic iteration of the real loop body from an arbitrary state satisfying the invariant, and the exit state; obligations translated from the executor's bit-vector "
+                                           "terms to integer arithmetic with the mod-2^w semantics kept and decided by z3 (isqrt: 1 <= x1 <= 2^(w/2) and (x1+1)^2 > x; gcd: the common divisors of (a,b) are those of the arguments, "
+                                           "proved as a chain of lemmas with explicit divisibility witnesses)")
+    res.outside = ["the CBMC harnesses (bit-precise, with native replay) cover isqrt only for x < 2^%d and windows around powers of two, gcd/lcm only for operands < 2^%d: beyond that the claim rests on the loop-invariant proofs" % (B, gb),
+                   "lcm beyond the stated operand bounds (its body is gcd, one division and one multiplication: decided for bounded operands and against gcd's contract)",
+                   "pre-loop constraints the integer translator cannot express (count-leading-zeros) are dropped from the step/exit obligations - fewer assumptions, so the proofs stand; the base case is decided bit-precisely per start value"]
     res.assumptions = ["CBMC's bit-precise semantics of C (goto-cc build of src/math.c, src/a.c with the generated config header)",
                        "A_U32_BSR/A_U64_BSR resolve to __builtin_clz/__builtin_clzl as in the gcc build (checked: goto-cc defines __GNUC__)"]
+    loop_proofs(res, cfg)
     run_e1(res, cfg, hs, default_timeout=240 if T == "quick" else 1200)
     return res.finish()
 
